@@ -69,29 +69,20 @@ Qed.
 
 Definition is_final (new : Z) : Prop := new = IO_COMPLETED \/ new = IO_ABORTED.
 
-Lemma finish_ok : forall i new w, is_final new -> io_ok (w_io w) (w_io (finish i new w)).
-Proof.
-  intros i new w Hn. unfold finish.
-  destruct (lookup i (w_io w)) as [b|] eqn:El; [|apply io_ok_refl].
-  destruct (terminal_io b) eqn:Et; [apply io_ok_refl|].
-  assert (H : io_ok (w_io w) (update i (mkIo new (i_cb b + 1) (i_fail b) (i_addr b)) (w_io w))).
-  { eapply io_ok_set; [exact El | congruence |].
-    intros [(Hc & _)|(_ & Hc)]; [|congruence]. right. cbn [i_cb]. split; [lia|].
-    unfold terminal_io. cbn [i_state]. destruct Hn as [->| ->]; reflexivity. }
-  cbn [set_io w_io w_qs]. destruct (lookup (i_addr b) (w_qs w)); exact H.
-Qed.
+(* what the callees may assume about "finishing" *)
+Definition fin_good (f : Z -> Z -> iow -> iow) : Prop := forall i new w, is_final new -> io_ok (w_io w) (w_io (f i new w)).
 
-Lemma q_finish_ok : forall a i new w, is_final new -> io_ok (w_io w) (w_io (q_finish a i new w)).
+Lemma q_finish_w_ok : forall f a i new w, fin_good f -> is_final new -> io_ok (w_io w) (w_io (q_finish_w f a i new w)).
 Proof.
-  intros a i new w Hn. unfold q_finish.
-  pose proof (finish_ok i new w Hn) as H.
-  destruct (lookup a (w_qs (finish i new w))) as [q|]; [|exact H].
+  intros f a i new w Hf Hn. unfold q_finish_w.
+  pose proof (Hf i new w Hn) as H.
+  destruct (lookup a (w_qs (f i new w))) as [q|]; [|exact H].
   destruct (q_active q) as [j|]; [|exact H]. destruct (j =? i); exact H.
 Qed.
 
-Lemma process_io_ok : forall a i w, io_ok (w_io w) (w_io (process_io a i w)).
+Lemma process_io_w_ok : forall f a i w, fin_good f -> io_ok (w_io w) (w_io (process_io_w f a i w)).
 Proof.
-  intros a i w. unfold process_io.
+  intros f a i w Hf. unfold process_io_w.
   destruct (lookup i (w_io w)) as [b|] eqn:El; [|apply io_ok_refl].
   destruct (lookup a (w_qs w)) as [q|]; [|apply io_ok_refl].
   destruct ((i_state b =? IO_IDLE) || (i_state b =? IO_PENDING)) eqn:Es; cbn [negb].
@@ -103,13 +94,13 @@ Proof.
         + left. cbn [i_cb]. split; [exact Hc | reflexivity].
         + unfold terminal_io, IO_IDLE, IO_PENDING, IO_COMPLETED, IO_ABORTED in *. lia. }
     destruct (i_fail b); [|exact H1].
-    eapply io_ok_trans; [exact H1 | apply q_finish_ok; right; reflexivity].
-  - apply q_finish_ok. right. reflexivity.
+    eapply io_ok_trans; [exact H1 | apply q_finish_w_ok; [exact Hf | right; reflexivity]].
+  - apply q_finish_w_ok; [exact Hf | right; reflexivity].
 Qed.
 
-Lemma submit_ok : forall i a f w, io_ok (w_io w) (w_io (submit i a f w)).
+Lemma submit_w_ok : forall f i a fl fo w, fin_good f -> io_ok (w_io w) (w_io (submit_w f i a fl fo w)).
 Proof.
-  intros i a f w. unfold submit.
+  intros f i a fl fo w Hf. unfold submit_w.
   destruct (lookup i (w_io w)) eqn:El; [apply io_ok_refl|].
   set (w1 := set_io i _ w).
   assert (H1 : io_ok (w_io w) (w_io w1)).
@@ -119,8 +110,37 @@ Proof.
   destruct (lookup a (w_qs w2)) as [q|]; [|rewrite H2; exact H1].
   destruct (negb (q_state q =? 0)).
   - cbn [set_q w_io]. rewrite H2. exact H1.
-  - eapply io_ok_trans; [rewrite <- H2 in H1; exact H1 | apply process_io_ok].
+  - eapply io_ok_trans; [rewrite <- H2 in H1; exact H1 | apply process_io_w_ok; exact Hf].
 Qed.
+
+Lemma fin_ok : forall fuel, fin_good (fin fuel).
+Proof.
+  induction fuel as [|k IH]; intros i new w Hn; cbn [fin]; [apply io_ok_refl|].
+  destruct (lookup i (w_io w)) as [b|] eqn:El; [|apply io_ok_refl].
+  destruct (terminal_io b) eqn:Et; [apply io_ok_refl|].
+  assert (H : io_ok (w_io w) (update i (mkIo new (i_cb b + 1) (i_fail b) (i_addr b) (i_follow b)) (w_io w))).
+  { eapply io_ok_set; [exact El | congruence |].
+    intros [(Hc & _)|(_ & Hc)]; [|congruence]. right. cbn [i_cb]. split; [lia|].
+    unfold terminal_io. cbn [i_state]. destruct Hn as [->| ->]; reflexivity. }
+  set (w1 := log [21; i; new] _).
+  assert (H1 : w_io w1 = update i (mkIo new (i_cb b + 1) (i_fail b) (i_addr b) (i_follow b)) (w_io w)).
+  { unfold w1. cbn [log set_io w_io w_qs]. destruct (lookup (i_addr b) (w_qs w)); reflexivity. }
+  destruct (i_follow b) as [[[j a2] f2]|]; [|rewrite H1; exact H].
+  eapply io_ok_trans; [rewrite <- H1 in H; exact H|].
+  apply (submit_w_ok (fin k) j a2 f2 None (log [23; j] w1) IH).
+Qed.
+
+Lemma finish_ok : forall i new w, is_final new -> io_ok (w_io w) (w_io (finish i new w)).
+Proof. exact (fin_ok FUEL). Qed.
+
+Lemma q_finish_ok : forall a i new w, is_final new -> io_ok (w_io w) (w_io (q_finish a i new w)).
+Proof. intros. apply q_finish_w_ok; [exact (fin_ok FUEL) | assumption]. Qed.
+
+Lemma process_io_ok : forall a i w, io_ok (w_io w) (w_io (process_io a i w)).
+Proof. intros. apply process_io_w_ok. exact (fin_ok FUEL). Qed.
+
+Lemma submit_ok : forall i a f fo w, io_ok (w_io w) (w_io (submit i a f fo w)).
+Proof. intros. apply submit_w_ok. exact (fin_ok FUEL). Qed.
 
 Lemma confirm_ok : forall a ok w, io_ok (w_io w) (w_io (confirm a ok w)).
 Proof.
@@ -164,7 +184,7 @@ Qed.
 Lemma do_op_ok : forall o w, io_ok (w_io w) (w_io (do_op o w)).
 Proof.
   intros o w. destruct o; cbn [do_op].
-  - apply (submit_ok i addr fail (log [10; 0] w)).
+  - apply (submit_ok i addr fail follow (log [10; 0] w)).
   - apply (confirm_ok addr ok (log [10; 1] w)).
   - apply (abort_ok i (log [10; 2] w)).
   - apply (run_batch_ok (log [10; 3] w)).
@@ -198,35 +218,44 @@ Lemma trigger_advances : forall a g w q i r b,
   lookup i (w_io w) = Some b -> i_state b = IO_PENDING -> i_fail b = false ->
   let w' := trigger a g w in
   lookup a (w_qs w') = Some (mkSq g 1 (Some i) r) /\
-  lookup i (w_io w') = Some (mkIo IO_ACTIVE (i_cb b) false (i_addr b)) /\
+  lookup i (w_io w') = Some (mkIo IO_ACTIVE (i_cb b) false (i_addr b) (i_follow b)) /\
   w_ev w' = [20; i] :: w_ev w.
 Proof.
   intros a g w q i r b Hq Hg Hs Hqq Hi Hst Hf. destruct q as [qg qs qa qq]. cbn [q_gen q_state q_queue] in *. subst qg qs qq.
-  destruct b as [bs bc bf ba]. cbn [i_state i_fail i_cb i_addr] in *. subst bs bf.
+  destruct b as [bs bc bf ba bfo]. cbn [i_state i_fail i_cb i_addr i_follow] in *. subst bs bf.
   unfold trigger. rewrite Hq. cbn [q_gen q_state q_queue q_active]. rewrite Z.eqb_refl. cbn [negb Z.eqb].
-  unfold process_io. cbn [set_q w_io w_qs]. rewrite Hi, lookup_update_eq.
-  cbn [i_state i_fail i_cb i_addr IO_PENDING IO_IDLE Z.eqb Pos.eqb orb negb q_gen q_state q_active q_queue
+  unfold process_io, process_io_w. cbn [set_q w_io w_qs]. rewrite Hi, lookup_update_eq.
+  cbn [i_state i_fail i_cb i_addr i_follow IO_PENDING IO_IDLE Z.eqb Pos.eqb orb negb q_gen q_state q_active q_queue
        log set_q set_io w_io w_qs w_ev w_def w_gen].
   rewrite !lookup_update_eq. cbn [q_state Z.eqb Pos.eqb].
   repeat split; cbn [log set_q set_io w_io w_qs]; apply lookup_update_eq.
 Qed.
 
-(* queue_by_address cleanup: the confirmation for the only request of an address removes its queue *)
+(* queue_by_address cleanup: the confirmation for the only request of an address removes its queue — unless the callback
+   submits a follow-up request (then the queue has to stay: the follow-up may be waiting in it) *)
 Lemma confirm_cleanup : forall a ok w q i,
   lookup a (w_qs w) = Some q -> q_active q = Some i -> q_queue q = [] ->
+  (forall b, lookup i (w_io w) = Some b -> i_follow b = None) ->
   lookup a (w_qs (confirm a ok w)) = None.
 Proof.
-  intros a ok w q i Hq Ha Hqq. destruct q as [qg qs qa qq]. cbn [q_active q_queue] in *. subst qa qq.
+  intros a ok w q i Hq Ha Hqq Hnf. destruct q as [qg qs qa qq]. cbn [q_active q_queue] in *. subst qa qq.
   unfold confirm. rewrite Hq. cbn [q_active].
   set (new := if ok then IO_COMPLETED else IO_ABORTED).
   assert (Hf : lookup a (w_qs (finish i new w)) = Some (mkSq qg qs (Some i) [])).
-  { unfold finish. destruct (lookup i (w_io w)) as [b|]; [|exact Hq].
-    destruct (terminal_io b); [exact Hq|].
+  { unfold finish, FUEL. cbn [fin]. destruct (lookup i (w_io w)) as [b|] eqn:Eb; [|exact Hq].
+    destruct (terminal_io b); [exact Hq|]. rewrite (Hnf b eq_refl).
     cbn [set_io w_qs]. destruct (lookup (i_addr b) (w_qs w)) as [q2|] eqn:E2; cbn [log set_q w_qs]; [|exact Hq].
     destruct (Z.eq_dec a (i_addr b)) as [e|Hne].
     - subst a. rewrite Hq in E2. inversion E2; subst q2. rewrite lookup_update_eq. reflexivity.
     - rewrite lookup_update_ne by assumption. exact Hq. }
-  unfold q_finish. rewrite Hf. cbn [q_active]. rewrite Z.eqb_refl.
+  unfold q_finish, q_finish_w. fold (finish i new w). rewrite Hf. cbn [q_active]. rewrite Z.eqb_refl.
   cbn [defer set_q w_qs q_gen q_queue]. rewrite lookup_update_eq. cbn [q_queue q_active del_q defer set_q w_qs].
   apply lookup_delete_eq.
 Qed.
+
+(* ... and with a follow-up to the same address it does stay, holding the follow-up (the case the seeded defect breaks) *)
+Lemma confirm_keeps_queue_for_followup :
+  let w := run_world [OSubmit 0 10 false (Some (1, 10, false))] in
+  let w' := confirm 10 true w in
+  exists q, lookup 10 (w_qs w') = Some q /\ q_queue q = [1] /\ q_active q = None.
+Proof. vm_compute. eexists. repeat split. Qed.
